@@ -22,6 +22,17 @@ fn dir_location_of_op(op: OpType) -> &'static str {
     }
 }
 
+/// doTypesOverlap of the reference implementation: equal types always overlap, otherwise
+/// the possible-type sets must intersect.
+pub fn types_overlap(s: &Schema, a: &str, b: &str) -> bool {
+    if a == b {
+        return true;
+    }
+    let pa = s.possible(a);
+    let pb = s.possible(b);
+    pa.iter().any(|x| pb.contains(x))
+}
+
 /// AreTypesCompatible(variableType, locationType)
 pub fn types_compatible(var: &MType, loc: &MType) -> bool {
     match (loc, var) {
@@ -242,9 +253,7 @@ impl<'a> V<'a> {
                         continue;
                     }
                     if self.s.is_composite(&fr.on) && self.s.is_composite(parent) {
-                        let pa = self.s.possible(parent);
-                        let pb = self.s.possible(&fr.on);
-                        if !pa.iter().any(|x| pb.contains(x)) {
+                        if !types_overlap(self.s, parent, &fr.on) {
                             self.flag("impossible-spread");
                         }
                     }
@@ -265,9 +274,7 @@ impl<'a> V<'a> {
                                 continue;
                             }
                             if self.s.is_composite(parent) {
-                                let pa = self.s.possible(parent);
-                                let pb = self.s.possible(t);
-                                if !pa.iter().any(|x| pb.contains(x)) {
+                                if !types_overlap(self.s, parent, t) {
                                     self.flag("impossible-spread");
                                 }
                             }
@@ -466,9 +473,7 @@ impl<'a> V<'a> {
                         continue;
                     }
                     if self.s.is_composite(&fr.on) && self.s.is_composite(parent) {
-                        let pa = self.s.possible(parent);
-                        let pb = self.s.possible(&fr.on);
-                        if !pa.iter().any(|x| pb.contains(x)) {
+                        if !types_overlap(self.s, parent, &fr.on) {
                             self.flag("impossible-spread");
                         }
                     }
@@ -490,9 +495,7 @@ impl<'a> V<'a> {
                                 continue;
                             }
                             if self.s.is_composite(parent) {
-                                let pa = self.s.possible(parent);
-                                let pb = self.s.possible(t);
-                                if !pa.iter().any(|x| pb.contains(x)) {
+                                if !types_overlap(self.s, parent, t) {
                                     self.flag("impossible-spread");
                                 }
                             }
